@@ -25,7 +25,13 @@ def cases(ctx):
         yield "hash", [3, nl.case_variant(rng, a)]
     for _ in range(ctx.n(400, 20000)):
         a = nl.gen_labels(rng)
-        o = nl.gen_labels(rng, absolute=True, budget=rng.choice([10, 30, 100]))
+        ro = rng.random()
+        if ro < 0.75:
+            o = nl.gen_labels(rng, absolute=True, budget=rng.choice([10, 30, 100]))
+        elif ro < 0.9:
+            o = nl.gen_labels(rng, absolute=False, budget=rng.choice([10, 30]))  # relative origin
+        else:
+            o = []  # the empty origin
         r = rng.random()
         if r < 0.6:
             a = [l for l in a if l] + nl.case_variant(rng, o)
@@ -175,10 +181,12 @@ def oracle(ctx, kind, case, out):
     elif op == 21:
         r, d, same, sub = out
         a, o = case[1], case[2]
-        if sub and is_abs(o) and not same:
+        if sub and not same:
             fail("derelativize(relativize(n, o), o) != n")
-        if sub and is_abs(o) and d[: len(r)] != a[: len(r)]:
-            fail("relativize changed the bytes of the prefix labels")
+        if sub and (d[: len(r)] != a[: len(r)] or len(r) != len(a) - len(o)):
+            fail("relativize changed the prefix labels")
+        if not sub and r != a:
+            fail("relativize changed a name that is not a subdomain of the origin")
     elif op == 12:
         p, s = out
         if p + s != case[1] or len(s) != case[2]:
